@@ -388,7 +388,11 @@ impl<'a> Planner<'a> {
     fn build_insert(&mut self, insert: &BoundInsert) -> PlannerResult<GroupId> {
         let source_group = match &insert.source {
             BoundInsertSource::Values(rows) => self.build_values(rows, &insert.table_schema)?,
-            BoundInsertSource::Query(query) => self.build_select(query)?,
+            BoundInsertSource::Query(query) => {
+                // Materialize to prevent Halloween problem (the query may read the target table)
+                let query_group = self.build_select(query)?;
+                self.build_materialize(query_group)?
+            }
         };
 
         let op = LogicalOperator::Insert(InsertOp::new(
